@@ -133,8 +133,11 @@ class Registry:
         self.callable_uns = {}     # uninterpreted sort name -> funtype name (values of the sort are callables)
 
     # --- declaration API used by /verif/contracts/*.py
-    def record(self, name, fields, pyclass=None):
+    def record(self, name, fields, pyclass=None, dictlike=False):
+        """frozen record value.  dictlike=True: the value models an (immutable) dict with a fixed universe of string
+        keys -- field k = value of key k, optional bool field has_k = presence (see builtins._rec_dict_key)"""
         t = TRec(name, {k: self.types.parse(v) for k, v in fields.items()}, pyclass)
+        t.dictlike = dictlike
         self.types.declare(name, t)
         return t
 
